@@ -696,15 +696,17 @@ Definition cancel_group_metas (s : state) (g : gname) : state :=
   | Some ms =>
       let s := set_gmeta s (gremove g (gmeta s)) in
       let s := fold_left cancel_m ms s in
-      let s := fold_left (fun s m =>
-                 match get_m s m with Some x => put_m s m (set_m_dead x true) | None => s end)
-               ms s in
       set_meta_cancelled s (fold_left dict_add ms (meta_cancelled s))
   end.
 
+(** Ghost: every request made for group [g] is marked dead when [g] is cancelled. *)
+Definition mark_dead (s : state) (g : gname) : state :=
+  set_mtasks s (map (fun x => if gname_eqb g (m_group x) then set_m_dead x true else x)
+                    (mtasks s)).
+
 (** [_cancel_and_remove_all_from_group] *)
 Definition cancel_group_body (s : state) (g : gname) (ids : list nat) : state :=
-  let s := cancel_group_metas s g in
+  let s := mark_dead (cancel_group_metas s g) g in
   fold_left (fun s t => if mem t (t_running s) then cancel_p s t else s) ids s.
 
 Fixpoint cancel_all_groups (s : state) (gs : list (gname * list nat)) : state :=
@@ -782,7 +784,7 @@ Definition do_op (s : state) (o : op) : state :=
             let s := know s g in
             let s := set_groups s (gensure g (groups s)) in
             let x := mk_mtask MApply g num bad [] w ecb ccb MNotStarted 0 None false None 0
-                              false 0 false in
+                              false 0 false 0 in
             set_res (new_meta s x) (RName g)
       end
   | OpMap stars els nc noncoro ecb ccb og =>
@@ -797,7 +799,7 @@ Definition do_op (s : state) (o : op) : state :=
             let s := know s g in
             let s := set_groups s (gensure g (groups s)) in
             let x := mk_mtask (MMap stars) g 0 false els default_w ecb ccb MNotStarted 0 None
-                              false None nc false 0 false in
+                              false None nc false 0 false nc in
             set_res (new_meta s x) (RName g)
       end
   | OpStart num =>
@@ -810,7 +812,7 @@ Definition do_op (s : state) (o : op) : state :=
           let s := set_groups s (gensure g (groups s)) in
           let c := cfg s in
           let x := mk_mtask MStart g num (cf_bad c) [] (cf_w c) (cf_ecb c) (cf_ccb c)
-                            MNotStarted 0 None false None 0 false 0 false in
+                            MNotStarted 0 None false None 0 false 0 false 0 in
           set_res (new_meta s x) (RName g)
       end
   | OpCancel ids => do_cancel s ids
